@@ -4,7 +4,7 @@ CHECK = {
     "harness": "c01_ecef.cpp",
     "srcs": GEODESY,
     "flavours": ["asan"],
-    "quick": {"shards": 4, "timeout": 600},
+    "quick": {"shards": 8, "timeout": 600},
     "thorough": {"shards": 16, "timeout": 3600},
     "required_categories": ["generic", "antimeridian_near", "meridian_exact", "ecef_first",
                             "ellipsoid_sphere", "ellipsoid_random", "ellipsoid_Clarke1880IGN"],
